@@ -4,6 +4,7 @@ package dhcpd
 
 // C10 — DHCPv4 never leases one address to two clients; lease table survives restart.
 //
+//vx:native
 //vx:overlay internal/dhcpd/zz_vx_c10.go
 //vx:entry vxC10History reach=offer,ack,nak,dropped,released,declined,static-added,static-rejected,static-updated,static-removed,recycled,exhausted,restart
 //vx:entry vxC10Full reach=full,offer,ack,nak,released,static-added,static-updated,recycled,exhausted,restart
